@@ -216,6 +216,18 @@ func (g *Gen) trans(e *Expr, env *TEnv) tvT {
 		for _, b := range e.Vars {
 			gt, so := g.resolveType(b.Type, env.pkg)
 			name := "q_" + b.Name
+			// a nested quantifier that reuses a bound name (typically through a macro) must not capture
+			// the outer variable: pick a name no variable in scope translates to
+			for clash := true; clash; {
+				clash = false
+				for _, ov := range env.vars {
+					if ov.t == name || strings.Contains(ov.t, " "+name+")") || strings.Contains(ov.t, " "+name+" ") || strings.Contains(ov.t, "("+name+" ") {
+						clash = true
+						name += "_"
+						break
+					}
+				}
+			}
 			env2.vars[b.Name] = tvT{t: name, gt: gt, sort: so}
 			bs = append(bs, fmt.Sprintf("(%s %s)", name, so))
 		}
@@ -1072,6 +1084,10 @@ func (g *Gen) needSpec(sf *SpecFn) {
 	kw := "define-fun"
 	if sf.Rec {
 		kw = "define-fun-rec"
+	} else {
+		definedHeadMu.Lock()
+		definedHead[sf.Name] = true // a macro for the solver: expanded before matching, so useless in a pattern
+		definedHeadMu.Unlock()
 	}
 	g.prel = append(g.prel, fmt.Sprintf("(%s %s (%s) %s %s)", kw, sf.Name, strings.Join(ps, " "), rs, body.t))
 }
